@@ -88,6 +88,9 @@ func (n *Node) update(topic format.Topic, f func([]byte) []byte) {
 	if token == "" {
 		n.Data = f(n.Data)
 	} else {
+		if n.Children == nil {
+			n.Children = make(map[string]*Node)
+		}
 		child, ok := n.Children[token]
 		if !ok {
 			child = newNode()
